@@ -22,7 +22,7 @@ EXPLANATION = (
     "interface of the crate is read from crates/dask-array-python/src/*.rs by a small reader for the pyo3 subset the crate uses "
     "(#[pyclass] structs, #[pymethods] impl blocks with #[new] / #[staticmethod], #[pyo3(signature = ...)], #[pyfunction], the "
     "#[pymodule] registrations; comments and string literals are blanked first; anything unrecognised is an analysis error). "
-    "R22.1 COVER every call `_rust.<Name>(...)` / `_rust.<Class>.<staticmethod>(...)` in the package names a class or function "
+    "R22.4 COVER every call of a class or function defined in dask_array/_frisky (code the baseline suite never executes) matches the callee's Python signature. R22.1 COVER every call `_rust.<Name>(...)` / `_rust.<Class>.<staticmethod>(...)` in the package names a class or function "
     "that the module registers, and passes a number of positional arguments and a set of keywords that its Rust signature "
     "accepts; R22.2 COVER every registered layer class defines the methods the generic translator calls unconditionally on "
     "`self._rust` (read from dask_array/_frisky/base.py: to_dask_graph, to_task_records), and every class a wrapper builds in "
